@@ -47,6 +47,10 @@ func c02Envelopes() []c02Env {
 		{name: "tools/list", method: "tools/list", params: "{}"},
 		{name: "tools/list(no params)", method: "tools/list"},
 		{name: "tools/call", method: "tools/call", params: `{"name":"t","arguments":{}}`},
+		// a well-formed envelope of any size is answered: arguments beyond the 64 KiB a line reader starts
+		// with, and beyond 1 MiB
+		{name: "tools/call(70 KiB argument)", method: "tools/call", params: `{"name":"t","arguments":{"blob":"` + strings.Repeat("x", 70<<10) + `"}}`},
+		{name: "tools/call(1.2 MiB argument)", method: "tools/call", params: `{"name":"t","arguments":{"blob":"` + strings.Repeat("y", 1200<<10) + `"}}`},
 		{name: "tools/call(params wrong type)", method: "tools/call", params: `"x"`, want: -32602},
 		{name: "tools/call(name wrong type)", method: "tools/call", params: `{"name":7}`, want: -32602},
 		{name: "tools/call(no params)", method: "tools/call", want: -32600},
